@@ -72,7 +72,7 @@ func (c20Checker) Meta() CheckerMeta {
 			"Debug is only changed while no operation is in flight (documented as caller-synchronised)",
 			"a race-class verdict relies on Go's race detector (happens-before based); it sees only executed paths",
 		},
-		QuickRuns: 3000, QuickRace: 600,
+		QuickRuns: 10000, QuickRace: 2000,
 	}
 }
 
@@ -376,6 +376,7 @@ type c20HistOp struct {
 	Call   uint64 `json:"call"`
 	Ret    uint64 `json:"ret"`
 	Out    string `json:"out,omitempty"`
+	Set    int    `json:"set"`
 	set    int
 	in     c20In
 	out    c20Out
